@@ -402,7 +402,7 @@ package raft
 //@    len(r.msgs[len(r.msgs) - 1].Entries) == len(m.Entries) && ptr(r.msgs[len(r.msgs) - 1].Entries) == ptr(m.Entries)
 //@ ensures (m.Type == pb.RequestVote || m.Type == pb.RequestPreVote || m.Type == pb.RequestPreVoteResp || m.Type == pb.Propose || m.Type == pb.ReadIndex || m.Type == pb.LeaderTransfer) ==> r.msgs[len(r.msgs) - 1].Term == m.Term
 //@ ensures !(m.Type == pb.RequestVote || m.Type == pb.RequestPreVote || m.Type == pb.RequestPreVoteResp || m.Type == pb.Propose || m.Type == pb.ReadIndex || m.Type == pb.LeaderTransfer) ==> r.msgs[len(r.msgs) - 1].Term == r.term
-//@ ensures forall i int :: 0 <= i && i < old(len(r.msgs)) ==> r.msgs[i].Type == old(r.msgs[i].Type) && r.msgs[i].To == old(r.msgs[i].To) && r.msgs[i].Reject == old(r.msgs[i].Reject) && r.msgs[i].Term == old(r.msgs[i].Term)
+//@ ensures forall i int :: 0 <= i && i < old(len(r.msgs)) ==> r.msgs[i].Type == old(r.msgs[i].Type) && r.msgs[i].To == old(r.msgs[i].To) && r.msgs[i].Reject == old(r.msgs[i].Reject) && r.msgs[i].Term == old(r.msgs[i].Term) && r.msgs[i].Hint == old(r.msgs[i].Hint) && r.msgs[i].HintHigh == old(r.msgs[i].HintHigh)
 
 // one vote per term (V2) and the election restriction
 //@ func (r *raft) handleNodeRequestVote [C03]
@@ -687,16 +687,46 @@ package raft
 //@    (forall k uint64 :: k != from ==> (k in old(r.pending[ctx]).confirmed) == old(k in r.pending[ctx].confirmed)) &&
 //@    len(old(r.pending[ctx]).confirmed) == old(len(r.pending[ctx].confirmed)) + ite(old(from in r.pending[ctx].confirmed), 0, 1)
 //@ ensures old(ctx in r.pending) && old(len(r.pending[ctx].confirmed)) + ite(old(from in r.pending[ctx].confirmed), 0, 1) + 1 < quorum ==> len(result) == 0 && len(r.queue) == old(len(r.queue))
-//@ loop 1 invariant done == $i + 1 && len(r.queue) == old(len(r.queue))
+// exactly the queue prefix up to (and including) ctx is released
+//@ ensures len(result) > 0 ==> len(result) <= old(len(r.queue)) && old(r.queue[len(result) - 1]) == ctx && len(r.queue) == old(len(r.queue)) - len(result)
+//@ ensures len(result) > 0 ==> (forall j int :: 0 <= j && j < len(result) ==> result[j] == old(r.pending[r.queue[j]]))
+//@ ensures len(result) > 0 ==> (forall j int :: 0 <= j && j < len(result) - 1 ==> old(r.queue[j]) != ctx)
+//@ loop 1 modifies freshof(*readStatus)
+//@ loop 1 invariant done == $i + 1 && len(r.queue) == old(len(r.queue)) && ptr(r.queue) == ptr(old(r.queue)) && len(cs) == done && (fresh(cs) || cap(cs) == 0)
+//@ loop 1 invariant forall j int :: 0 <= j && j < len(cs) ==> cs[j] == old(r.pending[r.queue[j]])
+//@ loop 1 invariant forall j int :: 0 <= j && j <= $i ==> old(r.queue[j]) != ctx
 
 //@ func (r *raft) hasCommittedEntryAtCurrentTerm [C06]
 //@ requires r.wf()
 //@ ensures r.term != 0
 //@ ensures result ==> r.log.termAt(r.log.committed) == r.term || r.term == 0
 
+// R6: heartbeats that carry a ReadIndex hint go to voting members only
 //@ func (r *raft) broadcastHeartbeatMessageWithHint [C06 C18]
-//@ trusted body not verified here (sends Heartbeat messages carrying the hint)
+//@ noframe
+//@ requires r.remotes != nil && r.witnesses != nil && r.log != nil
 //@ modifies r.msgs, elems(r.msgs[len(r.msgs):])
+//@ ensures len(r.msgs) >= old(len(r.msgs))
+//@ ensures (ctx.Low != 0 || ctx.High != 0) ==> (forall i int :: old(len(r.msgs)) <= i && i < len(r.msgs) ==>
+//@     (r.msgs[i].To in r.remotes || r.msgs[i].To in r.witnesses) && r.msgs[i].Type == pb.Heartbeat && r.msgs[i].Hint == ctx.Low && r.msgs[i].HintHigh == ctx.High)
+//@ loop 1 invariant len(r.msgs) >= old(len(r.msgs)) && (forall i int :: old(len(r.msgs)) <= i && i < len(r.msgs) ==>
+//@     (r.msgs[i].To in r.remotes || r.msgs[i].To in r.witnesses) && r.msgs[i].Type == pb.Heartbeat && r.msgs[i].Hint == ctx.Low && r.msgs[i].HintHigh == ctx.High)
+//@ loop 2 invariant ctx.Low == 0 && ctx.High == 0 && len(r.msgs) >= old(len(r.msgs))
+
+// R5: witnesses only ever get entry metadata (no user payload) except for config changes
+//@ func makeMetadataEntries [C18]
+//@ ensures len(result) == len(entries)
+//@ ensures forall i int :: 0 <= i && i < len(result) ==> result[i].Index == entries[i].Index && result[i].Term == entries[i].Term
+//@ ensures forall i int :: 0 <= i && i < len(result) ==> (entries[i].Type != pb.ConfigChangeEntry ==> result[i].Type == pb.MetadataEntry && len(result[i].Cmd) == 0)
+//@ ensures forall i int :: 0 <= i && i < len(result) ==> (entries[i].Type == pb.ConfigChangeEntry ==> result[i] == entries[i])
+//@ loop 1 modifies freshof(pb.Entry)
+//@ loop 1 invariant len(me) == $i + 1 && fresh(me) && cap(me) >= len(entries) && !inregion(ptr(entries), me)
+//@ loop 1 invariant forall i int :: 0 <= i && i < len(me) ==> me[i].Index == entries[i].Index && me[i].Term == entries[i].Term
+//@ loop 1 invariant forall i int :: 0 <= i && i < len(me) ==> (entries[i].Type != pb.ConfigChangeEntry ==> me[i].Type == pb.MetadataEntry && len(me[i].Cmd) == 0)
+//@ loop 1 invariant forall i int :: 0 <= i && i < len(me) ==> (entries[i].Type == pb.ConfigChangeEntry ==> me[i] == entries[i])
+
+//@ func makeWitnessSnapshot [C18]
+//@ ensures result.Witness && !result.Dummy && result.FileSize == 0 && len(result.Files) == 0 && result.Index == snapshot.Index && result.Term == snapshot.Term
 
 // admission of a ReadIndex request on the leader
 //@ func (r *raft) handleLeaderReadIndex [C06 C18]
